@@ -129,8 +129,16 @@ static void ts_lexer__get_lookahead(Lexer *self) {
   self->lookahead_size = decode(chunk, size, &self->data.lookahead);
 
   // If this chunk ended in the middle of a multi-byte character,
-  // try again with a fresh chunk.
-  if (self->data.lookahead == TS_DECODE_ERROR && size < 4) {
+  // try again with a fresh chunk. In UTF-16 the chunk may also end between
+  // the two halves of a surrogate pair, which decodes as a lone lead
+  // surrogate rather than as an error.
+  bool is_utf16 =
+    self->input.encoding == TSInputEncodingUTF16LE ||
+    self->input.encoding == TSInputEncodingUTF16BE;
+  if (
+    (self->data.lookahead == TS_DECODE_ERROR && size < 4) ||
+    (is_utf16 && size < 4 && U16_IS_LEAD(self->data.lookahead))
+  ) {
     ts_lexer__get_chunk(self);
     chunk = (const uint8_t *)self->chunk;
     size = self->chunk_size;
